@@ -23,6 +23,7 @@ import (
 	"github.com/anyproto/any-sync/commonspace/object/tree/objecttree"
 	"github.com/anyproto/any-sync/commonspace/object/tree/synctree"
 	"github.com/anyproto/any-sync/commonspace/object/tree/synctree/response"
+	"github.com/anyproto/any-sync/commonspace/object/tree/synctree/updatelistener"
 	"github.com/anyproto/any-sync/commonspace/object/tree/treechangeproto"
 	"github.com/anyproto/any-sync/commonspace/object/tree/treestorage"
 	"github.com/anyproto/any-sync/commonspace/spacestorage"
@@ -82,6 +83,11 @@ type replica struct {
 	client *simClient
 	up     bool
 	st     objecttree.Storage // cached read handle on the tree storage (reset on restart)
+	// passive receivers take no part in the run; they get the recorded head updates in the C06 redelivery leg
+	passive bool
+	// C06 bookkeeping
+	lastSeq  []string          // sequence presented to consumers after the last event on this replica
+	orderIds map[string]string // order id first seen for each stored change
 }
 
 type world struct {
@@ -103,8 +109,20 @@ type world struct {
 	record   bool
 	// options
 	encrypted bool
-	// hooks for other properties
-	onDeliverHU func(m *message, dst *replica) bool // return false to skip default handling
+	opts      treeOpts
+	cloneSeq  int
+	huLog     []*message // one copy of every broadcast head update (for passive receivers)
+}
+
+// active returns the replicas that take part in the run (everything but passive receivers).
+func (w *world) active() []*replica {
+	var out []*replica
+	for _, rep := range w.reps {
+		if !rep.passive {
+			out = append(out, rep)
+		}
+	}
+	return out
 }
 
 func peerName(i int) string { return fmt.Sprintf("p%d", i) }
@@ -188,7 +206,12 @@ func (rep *replica) treeStorage() objecttree.Storage {
 }
 
 func (rep *replica) deps() synctree.BuildDeps {
+	var l updatelistener.UpdateListener
+	if rep.w.opts.order {
+		l = &orderListener{rep: rep}
+	}
 	return synctree.BuildDeps{
+		Listener:        l,
 		SpaceId:         rep.w.space.Id,
 		SyncClient:      rep.client,
 		AclList:         rep.acl,
@@ -225,12 +248,13 @@ type simClient struct {
 }
 
 func (c *simClient) Broadcast(ctx context.Context, hu *objectmessages.HeadUpdate) error {
-	if c.muted {
+	if c.muted || c.rep.passive {
 		return nil
 	}
 	w := c.rep.w
+	logged := false
 	for _, other := range w.reps {
-		if other.idx == c.rep.idx {
+		if other.idx == c.rep.idx || c.rep.passive {
 			continue
 		}
 		// exactly what streampool's stream.write does per peer: Copy, SetPeerId, ProtoMessage
@@ -245,13 +269,20 @@ func (c *simClient) Broadcast(ctx context.Context, hu *objectmessages.HeadUpdate
 			return err
 		}
 		w.checkAdvertisedHU(c.rep, b)
+		if other.passive {
+			if !logged {
+				logged = true
+				w.huLog = append(w.huLog, &message{kind: kHeadUpdate, src: c.rep.idx, dst: -1, bytes: b})
+			}
+			continue
+		}
 		w.enqueue(&message{kind: kHeadUpdate, src: c.rep.idx, dst: other.idx, bytes: b})
 	}
 	return nil
 }
 
 func (c *simClient) QueueRequest(ctx context.Context, req syncdeps.Request) error {
-	if c.muted {
+	if c.muted || c.rep.passive {
 		return nil
 	}
 	return c.rep.w.sendRequest(c.rep, req)
@@ -381,7 +412,7 @@ func (w *world) deliver(m *message) {
 		if err != nil && !m.corrupt {
 			w.noteHonestReject(dst, "head update", err)
 		}
-		if req != nil {
+		if req != nil && !dst.passive {
 			must(w.sendRequest(dst, req))
 		}
 	case kRequest:
@@ -704,6 +735,9 @@ func (w *world) localAdd(rep *replica, snapshot bool, n int) string {
 		w.order = append(w.order, a.Id)
 	}
 	w.r.Event(kind, "%s: new head %s (prev %s)", rep.name, shorts(res.Heads), shorts(res.OldHeads))
+	if w.opts.order {
+		w.orderAfterLocalAdd(rep, res.Mode)
+	}
 	if len(res.Heads) != 1 {
 		return ""
 	}
@@ -720,8 +754,8 @@ func (s stubPeer) Id() string { return s.id }
 // antiEntropy: every ordered pair exchanges a full-sync request; returns whether anything changed.
 func (w *world) antiEntropyRound() bool {
 	before := w.fingerprint()
-	for _, a := range w.reps {
-		for _, b := range w.reps {
+	for _, a := range w.active() {
+		for _, b := range w.active() {
 			if a.idx == b.idx || !a.up || !b.up {
 				continue
 			}
@@ -737,7 +771,7 @@ func (w *world) antiEntropyRound() bool {
 
 func (w *world) fingerprint() string {
 	var sb strings.Builder
-	for _, rep := range w.reps {
+	for _, rep := range w.active() {
 		sb.WriteString(rep.name + ":" + strings.Join(rep.heads(), ",") + "|" + strings.Join(rep.storedIds(), ",") + ";")
 	}
 	return sb.String()
@@ -745,7 +779,7 @@ func (w *world) fingerprint() string {
 
 // healAndConverge: faults off, everything restarted, drain, fair anti-entropy, then the convergence oracle.
 func (w *world) healAndConverge() {
-	for _, rep := range w.reps {
+	for _, rep := range w.active() {
 		if !rep.up || rep.tree == nil {
 			rep.restart()
 			w.r.Event("heal-restart", "%s", rep.name)
@@ -753,13 +787,14 @@ func (w *world) healAndConverge() {
 	}
 	w.drain(5000)
 	rounds := 0
-	for ; rounds < len(w.reps)+2; rounds++ {
+	nact := len(w.active())
+	for ; rounds < nact+2; rounds++ {
 		if !w.antiEntropyRound() {
 			break
 		}
 	}
 	w.r.SetCfg("anti_entropy_rounds", rounds+1)
-	if rounds >= len(w.reps)+2 {
+	if rounds >= nact+2 {
 		w.r.Fail("no-convergence", "rounds", "anti-entropy still changes state after %d rounds", rounds)
 	}
 	want := []string{w.treeId}
@@ -768,7 +803,7 @@ func (w *world) healAndConverge() {
 	}
 	sort.Strings(want)
 	ref := w.reps[0]
-	for _, rep := range w.reps {
+	for _, rep := range w.active() {
 		got := rep.storedIds()
 		if strings.Join(got, ",") != strings.Join(want, ",") {
 			w.r.Fail("no-convergence", "stored-set", "%s stores %d changes after the fair phase, expected the union of all %d created changes\n missing: %s\n extra: %s",
@@ -779,6 +814,8 @@ func (w *world) healAndConverge() {
 		}
 	}
 }
+
+func sortStrings(s []string) { sort.Strings(s) }
 
 func diff(a, b []string) []string {
 	m := map[string]bool{}
